@@ -31,7 +31,7 @@ def gen(ctx):
     n = ctx.n(260, 6000)
     for i in range(n):
         spec = M.random_spec(rng)
-        cases.append({"kind": "method", "spec": spec, "dm": M.in_domain_dm(rng, spec, max_m=ctx.n(10, 16), ties=rng.choice([0.0, 0.3, 0.7]))})
+        cases.append({"kind": "method", "spec": spec, "dm": M.in_domain_dm(rng, spec, max_m=ctx.n(10, 16), ties=rng.choice([0.0, 0.3, 0.7]), int_label_rate=0.15)})
     # near-tied scores next to a much larger one: two rows differing by one ulp in one cell, a third row scaled up
     import math
     for i in range(ctx.n(60, 600)):
@@ -47,7 +47,7 @@ def gen(ctx):
         cases.append({"kind": "method", "spec": spec, "dm": dm, "near": True})
     for i in range(ctx.n(10, 120)):
         spec = M.random_spec(rng, ["SIMUS"])
-        cases.append({"kind": "method", "spec": spec, "dm": M.in_domain_dm(rng, spec, max_m=6, max_n=4, ties=0.3)})
+        cases.append({"kind": "method", "spec": spec, "dm": M.in_domain_dm(rng, spec, max_m=6, max_n=4, ties=0.3, int_label_rate=0.15)})
     # SIMUS on richer problems (several maximise criteria, no ties): there the two SIMUS scores order the alternatives differently
     for i in range(ctx.n(14, 160)):
         spec = {"name": "SIMUS", "rank_by": 2 if i % 3 else 1}
@@ -72,7 +72,7 @@ def gen(ctx):
         v = [rng.randint(1, k) for _ in range(L)]
         if rng.random() < 0.4:
             v[rng.randrange(L)] = rng.randint(0, k + 2)
-        cases.append({"kind": "mkagg", "values": v, "dm": G.dm_case(rng, m=L)})
+        cases.append({"kind": "mkagg", "values": v, "dm": G.dm_case(rng, m=L, int_label_rate=0.2)})
     for i in range(ctx.n(20, 200)):
         L = rng.randint(1, 6)
         cases.append({"kind": "mkkernel", "values": [rng.choice([True, False]) for _ in range(L)],
@@ -82,11 +82,11 @@ def gen(ctx):
 
 def _result_obs(res, with_score=None):
     o = {
-        "alts": [str(a) for a in res.alternatives],
+        "alts": [G.lab(a) for a in res.alternatives],
         "values": res.values.tolist(),
         "shape": list(res.shape),
         "len": len(res),
-        "series_index": [str(a) for a in res.to_series().index],
+        "series_index": [G.lab(a) for a in res.to_series().index],
         "series_values": res.to_series().tolist(),
     }
     if with_score is not None:
@@ -115,7 +115,7 @@ def observe(case):
                 o["outrank"] = np.asarray(res.e_.outrank, dtype=bool).tolist()
                 o["kernel_size"] = int(res.kernel_size_)
                 o["kernel_where"] = res.kernel_where_.tolist()
-                o["kernel_alts"] = [str(a) for a in res.kernel_alternatives_]
+                o["kernel_alts"] = [G.lab(a) for a in res.kernel_alternatives_]
                 return o
             o = _result_obs(res, M.score_key(case["spec"]))
             if case["spec"]["name"] == "SIMUS":
@@ -184,7 +184,7 @@ def _e2e(case):
     if name not in E2E or dm.get("family") != "dyadic" or case.get("near"):
         return None
     return {"op": "evaluate", "method": E2E[name], "M": C.ratmat(dm["matrix"]), "O": ["max" if o == 1 else "min" for o in dm["objectives"]],
-            "w": C.rats(dm["weights"]), "alts": dm["alternatives"]}
+            "w": C.rats(dm["weights"]), "alts": [G.lab(a) for a in dm["alternatives"]]}
 
 
 def _wellformed(ranks):
@@ -209,7 +209,7 @@ def judge(case, obs, replies):
                 return out  # infeasible / unbounded stage: outside the quantifier
             prop(f"{name} refused an in-domain matrix with {obs['err']}: {obs.get('msg')}")
             return out
-        alts = case["dm"]["alternatives"]
+        alts = [G.lab(a) for a in case["dm"]["alternatives"]]  # labels keep their type: 2019 is not "2019"
         if obs["alts"] != alts or obs["series_index"] != alts:
             prop(f"{name}: result does not name the input's alternatives in input order", alts, obs["alts"])
         if obs["len"] != len(alts) or obs["shape"] != [len(alts)] or obs["series_values"] != obs["values"]:
@@ -262,8 +262,8 @@ def judge(case, obs, replies):
             prop(f"RankResult {'accepted a vector with gaps / not starting at 1' if accept else 'refused a well-formed ranking'} ({kind})", should, v)
         if accept and (obs["values"] != v):
             prop("RankResult changed the values it was given", v, obs["values"])
-        if kind == "mkagg" and accept and obs["alts"] != case["dm"]["alternatives"]:
-            prop("mkagg method: alternatives not those of the matrix in order", case["dm"]["alternatives"], obs["alts"])
+        if kind == "mkagg" and accept and obs["alts"] != [G.lab(a) for a in case["dm"]["alternatives"]]:
+            prop("mkagg method: alternatives not those of the matrix in order", [G.lab(a) for a in case["dm"]["alternatives"]], obs["alts"])
         if replies[0].get("ok") != accept:
             corr("validRank: model vs implementation", replies[0].get("ok"), accept)
         return out
